@@ -108,6 +108,9 @@ def gen_file(rng, big=70000, marker=True, debug=False, defect=False):
         w.text(f"#>CHECK_FWVER VERSIONDESC={vd}")
         if typ == 1:
             flt = bytes([1, 1]) + hw.to_bytes(2, "big")
+            if hw != 0xBE and rng.random() < 0.25:
+                # the filter names ANOTHER component than the tag-type map does: the hardware id of the component is the filter's
+                flt = bytes([1, 1]) + rng.choice([x for x in (0x9B, 0xAD, 0xC0, 0x93, 0xB6, 0x0B) if x != hw]).to_bytes(2, "big")
             if hw == 0xBE and rng.random() < 0.5:
                 # the filters of the BGM12X family that do not end in the hardware id (special-cased by the importer)
                 flt = bytes.fromhex(rng.choice(["010100B6", "010280B600BE", "010280BE00B6"]))
@@ -152,6 +155,41 @@ def gen_file(rng, big=70000, marker=True, debug=False, defect=False):
         payload = img if fmt == 0 else b"".join(raws)
         exp.append((desc, payload))
     return w.value(), (None if rejected else exp)
+
+
+def gen_variants(rng, n):
+    """texts without a computed expectation (compared between model and code only): sections that follow each other WITHOUT an
+    instruction line in between (the start of a mapped tag type alone ends the previous section; its instructions stay in
+    force), and sections whose SELECT_IF names a protocol the importer does not know (they produce no component)"""
+    out = []
+    for i in range(n):
+        w = Writer()
+        w.text("##Creator: fwbuilder 2.5")
+        w.text(f"##Firmware: 1100 ID-ENGINE {'D-1.23.' if i % 5 == 4 else '1.02.03'} generated")
+        w.text("##Bf3Update: 1")
+        kinds = [rng.choice(list(SECTIONS) + IGNORED) for _ in range(rng.choice([2, 3, 4]))]
+        for si, base in enumerate(kinds):
+            if base in IGNORED:
+                if rng.random() < 0.5:
+                    w.text("#>CHECK_FWVER VERSIONDESC=*")
+                w.data(base, g.rbytes(rng, 8), [8])
+                continue
+            typ, hw, fmt, intf, maxpages = SECTIONS[base]
+            bare = si > 0 and rng.random() < 0.6             # no instruction line in front of this section
+            if not bare:
+                w.text("#>CHECK_FWVER VERSIONDESC=" + rng.choice(["*", "00 00 04 01 02 03 04"]))
+                if rng.random() < 0.7:
+                    flt = UC_FILTER if typ != 1 else bytes([1, 1]) + (hw or 0x9B).to_bytes(2, "big")
+                    w.text("#>SELECT FILTER=" + " ".join(f"{b:02X}" for b in flt))
+                w.text("#>SELECT_IF PROTOCOL=" + rng.choice(["*", "BRP", "BRP-SER", "NOPE", "brp", "ISO7816-4", ""]))
+            w.data(base, gen_image(rng, 300), [rng.choice([16, 64, 250])])
+            r = rng.random()
+            if r < 0.3:
+                w.text("#>REBOOT")
+            elif r < 0.4:
+                w.text("##CRC: 0x0BADF00D")
+        out.append(w.value())
+    return out
 
 
 def show_lines(lines):
